@@ -175,6 +175,15 @@ pub fn gen_name(rng: &mut Rng, pool: &mut Vec<Name>) -> Name {
         let base = rng.pick(pool).clone();
         let keep = rng.below(base.len() as u64 + 1) as usize;
         let mut n: Name = base[base.len() - keep..].to_vec();
+        // the same suffix spelled in another letter case is another spelling: it must come back as written
+        // (names compare case-insensitively, RFC 4343, but they are preserved octet for octet)
+        if rng.chance(1, 4) {
+            for l in n.iter_mut() {
+                if rng.chance(1, 2) {
+                    *l = l.iter().map(|c| if rng.chance(1, 2) { c.to_ascii_uppercase() } else { c.to_ascii_lowercase() }).collect();
+                }
+            }
+        }
         let extra = rng.below(3);
         for _ in 0..extra {
             n.insert(0, rng.pick(&LABELS).to_vec());
@@ -421,6 +430,25 @@ fn rt(args: &[String]) {
     for d in [-40i64, -3, -2, -1, 0, 1, 2, 30, 3000] {
         let m = gen_boundary_msg(&mut rng, d);
         out.emit(rt_event(&m, "boundary16k"));
+    }
+    // names nested at every depth: x1; x2.x1; x3.x2.x1; ... -- each is written as one label and a pointer to the one before,
+    // so reading the deepest one follows a chain of depth-1 pointers (a name has up to 127 labels)
+    for depth in [2usize, 5, 9, 10, 11, 12, 13, 20, 40, 100, 126] {
+        let mut m = gen_msg(&mut rng, 0, true);
+        m.edns = None;
+        m.rcode &= 15;
+        m.qname = vec![b"x1".to_vec()];
+        let mut name: Name = vec![];
+        for i in 1..=depth {
+            // one-octet labels keep the deepest name below 255 octets
+            name.insert(0, if depth > 60 { vec![b'a' + (i % 26) as u8] } else { format!("x{}", i).into_bytes() });
+            m.secs[0].push(ARec { name: name.clone(), rtype: 1, class: 1, ttl: 60, data: AData::Other(vec![192, 0, 2, i as u8]) });
+        }
+        if depth <= 60 {
+            m.secs[1].push(ARec { name: name.clone(), rtype: 2, class: 1, ttl: 60, data: AData::Single([vec![b"ns".to_vec()], name.clone()].concat()) });
+        }
+        m.qname = if depth > 60 { vec![vec![b'a' + 1]] } else { vec![b"x1".to_vec()] };
+        out.emit(rt_event(&m, "nested"));
     }
     // one opaque record of maximal size
     for sz in [65535usize - 12 - 5 - 11 - 20, 60000, 40000] {
